@@ -358,6 +358,21 @@ theorem nonce_covers_window (cfg : Cfg) (sha : String → String)
   rw [← hsame] at hlive'
   exact issueS2S_rejects_live cfg _ t₂ r₂ hchk httl hwf₂ vp' hvp' _ hlive' hb
 
+/-- **the nonce check fails closed.** When the session store fails the read of a nonce entry, the request gets no
+    token - whatever else is right with it (so a replay cannot slip through a transient store failure). -/
+theorem s2s_nonce_store_fault_fails_closed (cfg : Cfg) (w : World) (now : Nat) (r : S2SReq)
+    (hf : r.nonceFault = true) (hne : r.vps ≠ []) : ∀ resp, (issueS2S cfg w now r).2 ≠ .ok resp := by
+  intro resp hok
+  unfold issueS2S at hok
+  repeat' split at hok
+  all_goals first
+    | (simp at hok; done)
+    | (have hnc := ‹nonceCheck cfg now r.nonceFault r.vps w.s2sNonces = _›
+       rw [hf] at hnc
+       have := nonceCheck_fault cfg now r.vps w.s2sNonces hne
+       rw [hnc] at this
+       exact this _ rfl)
+
 /-- with the regenerated durations the window is covered -/
 theorem nonce_covers_window_today (ns : Nat) :
     (Facts.C02.s2sMaxValidityMs * ns) + 2 * (Facts.C02.verifierMaxSkewMs * ns) ≤ Facts.C02.s2sNonceTtlMs * ns := by
